@@ -204,12 +204,18 @@ def seq_search(n, edges, depth, res):
                                                   sched=sched, jobs=jobs)
             if msgs:
                 break
-        return msgs, members, ed
-    seen = {(members0, edges0)}
+        # identity partition of the real sets: histories that reach the same
+        # documented state while two objects share one set do not have the
+        # same futures, so they must not be merged (cf. C19-w6m2)
+        conts = [jobs[k].required for k in sorted(jobs)] + [sched.jobs]
+        first = {}
+        alias = tuple(first.setdefault(id(c), i) for i, c in enumerate(conts))
+        return msgs, members, (ed, alias)
+    seen = {(members0, run([])[2])}
     frontier = collections.deque([[]])
     while frontier and not res.get('abort'):
         hist = frontier.popleft()
-        _, members, ed = run(hist)
+        _, members, (ed, _) = run(hist)
         if len(hist) >= depth:
             continue
         for op in all_ops(members, between=True, maxse=1, pool=members0):
